@@ -153,6 +153,18 @@ def handle (op : String) (args : List String) : Option String :=
   | "lists-getaddr", [c, sec, base, idx] => do
       let c ← cfg? c; let sec ← parseHex sec; let base ← base.toNat?; let idx ← idx.toNat?
       pure ((getAddress c sec base idx).render toString)
+  | "lists-copyrel", [c, dwoRoot, skelRoot, addr] => do
+      let c ← cfg? c; let dwoRoot ← attrs? dwoRoot; let skelRoot ← attrs? skelRoot
+      let addr ← parseHex addr
+      let secs : Sections := ⟨addr, [], [], [], []⟩
+      let r : Out UnitCtx := do
+        let skel ← unitBases c false secs skelRoot
+        -- the `.dwo` file has no `.debug_addr`
+        let split ← unitBases c true ⟨[], [], [], [], []⟩ dwoRoot
+        pure (copyRelocated split skel)
+      pure (r.render fun u =>
+        let lp := u.lowPc; let ab := u.addrBase; let rb := u.rnglistsBase; let lb := u.loclistsBase
+        s!"{lp},{ab},{rb},{lb}")
   | "lists-dd", args => handleDie args
   | "lists-die", args => handleDie args
   | _, _ => none
